@@ -499,7 +499,7 @@ func permutations(n int) [][]int {
 func checkC19(rep *Report, rng *Rng, tier string) {
 	n := 100
 	if tier == "thorough" {
-		n = 4000
+		n = 1200 // every history costs ~30 model evaluations on file images (exact read lists)
 	}
 	rep.Rule = "seeded histories over flushed, re-opened (nothing cached) and partially evicted stores with large and small values; every ReadAt issued during a key-only call (GetItem/MinItem/MaxItem/visits/iterators with withValue=false, Exist, Len, Set, Delete) is intersected with the byte ranges of all item values (known from the write log): the intersection must be empty; every successful NewStore must issue exactly Stat + the 24-byte trailer read + one read of the root record, whatever the file size; non-trivial = at least one re-open and 8 ops"
 	opens := 0
@@ -694,6 +694,23 @@ func init() {
 				}
 			case "del":
 				line = "del " + hx(op.Key)
+			case "asc", "desc", "ascx", "descx":
+				// a whole visit (the visitor answers true to the first N deliveries; N < 0: to all)
+				if rc0, ok0 := w.H[0].Ref.Colls[op.Name]; ok0 {
+					budget := op.N
+					if budget < 0 {
+						budget = len(rc0.Items) + 1
+					}
+					dir := "asc"
+					if op.K == "desc" || op.K == "descx" {
+						dir = "desc"
+					}
+					line = fmt.Sprintf("vis %s %s %s %d", dir, hx(op.Key), b[op.WV], budget)
+				}
+			case "len":
+				line = "len"
+			case "tot":
+				line = "tot"
 			}
 			rc, ok := w.H[0].Ref.Colls[op.Name]
 			if line == "" || !ok || (seqNamed && seqName != op.Name) || w.ChunkMem || len(seqLines) >= 12 {
@@ -703,7 +720,7 @@ func init() {
 			seqName, seqNamed = op.Name, true
 			seqLines = append(seqLines, line)
 			m := getModel()
-			if _, err := io.WriteString(m.in, fmt.Sprintf("seqreads %d %s %d %s\n%s\n", rc.Cmp, hx([]byte(op.Name)), len(seqLines), hexFile(seqImg), strings.Join(seqLines, "\n"))); err != nil {
+			if _, err := io.WriteString(m.in, fmt.Sprintf("seq2reads %d %s %d %s\n%s\n", rc.Cmp, hx([]byte(op.Name)), len(seqLines), hexFile(seqImg), strings.Join(seqLines, "\n"))); err != nil {
 				seqOn = false
 				return nil
 			}
@@ -727,7 +744,7 @@ func init() {
 			lazySeqCompared++
 			if exp := outs[len(outs)-1]; exp != got {
 				return &Mismatch{Kind: "reads-vs-model", Expected: exp, Observed: got,
-					Note: fmt.Sprintf("ReadAt calls of call %d of a run of calls after re-opening vs the Coq model LazySeq.srun_reads (run: %s)", len(seqLines), strings.Join(seqLines, "; "))}
+					Note: fmt.Sprintf("ReadAt calls of call %d of a run of calls after re-opening vs the Coq model LazySeq2.srun_reads2 (run: %s)", len(seqLines), strings.Join(seqLines, "; "))}
 			}
 			return nil
 		}
